@@ -95,6 +95,11 @@ func headerClass(r *rand.Rand, class string, salt string) (string, []string) {
 	case "empty":
 		return "X-Vf-" + salt + "-Empty", []string{""}
 	}
+	if n, ok := strings.CutPrefix(class, "huge:"); ok {
+		// one highly compressible value of the given size
+		k, _ := strconv.Atoi(n)
+		return "X-Vf-" + salt + "-Huge", []string{strings.Repeat("x", k)}
+	}
 	panic("unknown header class " + class)
 }
 
@@ -1403,7 +1408,12 @@ func (rn *run) respond(w http.ResponseWriter, form, codec string, herr int) {
 				}
 				_ = lower.Write(&tb)
 			}
-			body = append(body, envelope(0x80, tb.Bytes())...)
+			if end.Style == "zend" && comp != "" {
+				// the trailer frame is itself compressed (flag bits 0x80 | 0x01): legal, and nobody does it
+				body = append(body, envelope(0x81, compressAs(comp, tb.Bytes()))...)
+			} else {
+				body = append(body, envelope(0x80, tb.Bytes())...)
+			}
 		}
 	case "connect_stream":
 		ctFor("application/connect+" + codec)
@@ -1429,7 +1439,11 @@ func (rn *run) respond(w http.ResponseWriter, form, codec string, herr int) {
 			if hd.Fault == "badendjson" {
 				js = []byte(`{"error": [`)
 			}
-			body = append(body, envelope(0x02, js)...)
+			if end.Style == "zend" && comp != "" {
+				body = append(body, envelope(0x03, compressAs(comp, js))...) // a compressed end-of-stream message
+			} else {
+				body = append(body, envelope(0x02, js)...)
+			}
 		}
 	case "connect_post", "connect_get":
 		if hd.Fault == "errcode0" {
@@ -1619,7 +1633,10 @@ func (rn *run) writeResponse(w http.ResponseWriter, status int, body []byte, aft
 				n = s
 			}
 		}
-		if _, err := w.Write(rest[:n]); err != nil {
+		k, err := w.Write(rest[:n])
+		if err != nil || k != n {
+			// (a count other than len(p) without an error breaks the io.Writer contract; a handler that copies
+			//  with io.Copy or a write-it-all loop stops here: "invalid write result" / short write)
 			break
 		}
 		rest = rest[n:]
